@@ -23,8 +23,8 @@ ACCESSORS = {
     "Object::as_stream": {"Stream"}, "Object::as_stream_mut": {"Stream"},
 }
 
-FROM = {"bool": ("Boolean", r"^\$?\w+$|^arg1$"), "i64": ("Integer", r"^arg1$"), "i8": ("Integer", r"^from\(arg1\)$"), "i16": ("Integer", r"^from\(arg1\)$"),
-        "i32": ("Integer", r"^from\(arg1\)$"), "u8": ("Integer", r"^from\(arg1\)$"), "u16": ("Integer", r"^from\(arg1\)$"), "u32": ("Integer", r"^from\(arg1\)$"),
+FROM = {"bool": ("Boolean", r"^\$?\w+$|^arg1$"), "i64": ("Integer", r"^arg1$"), "i8": ("Integer", r"^from\(arg1\)$|^arg1 as i64$"), "i16": ("Integer", r"^from\(arg1\)$|^arg1 as i64$"),
+        "i32": ("Integer", r"^from\(arg1\)$|^arg1 as i64$"), "u8": ("Integer", r"^from\(arg1\)$|^arg1 as i64$"), "u16": ("Integer", r"^from\(arg1\)$|^arg1 as i64$"), "u32": ("Integer", r"^from\(arg1\)$|^arg1 as i64$"),
         "f64": ("Real", r"^cast\(arg1\)$|^arg1 as f32$"), "f32": ("Real", r"^arg1$"), "std::string::String": ("Name", r"^into_bytes\(arg1\)$"),
         "&str": ("Name", r"^to_vec\(as_bytes\(arg1\)\)$|^to_owned\(as_bytes\(arg1\)\)$|^from\(as_bytes\(arg1\)\)$|^into\(as_bytes\(arg1\)\)$"),
         "std::vec::Vec<object::Object>": ("Array", r"^arg1$"), "object::Dictionary": ("Dictionary", r"^arg1$"), "object::Stream": ("Stream", r"^arg1$"),
@@ -99,19 +99,18 @@ def dictionary(ctx, F, R="R-TABLE"):
 # ----------------------------------------------------------------------------- who may write
 
 def field_writer_table(F, adts):
-    """{adt.field: sorted root function names that store to the field or take `&mut` of it}."""
-    out = {}
+    """{adt.field: sorted PUBLIC functions from which a store to the field (or a `&mut` borrow of it) is reachable}.
+    Public entry points are used instead of the function that contains the store, so that moving a store between a
+    caller and its private callee, nesting helpers differently or introducing helper structs changes nothing; what the
+    table fixes is which operations of the API can change which piece of state."""
+    direct = {}
     for pth, b in F.bodies.items():
-        root = F.canon_of(b).split("::{closure")[0]
-
         def note(place):
-            # a store to a.b.c writes (part of) a.b as well: every listed struct field along the path counts
             for e in place["p"]:
                 if isinstance(e, dict) and "f" in e and e.get("loc") and not str(e.get("n", "")).isdigit() and any(e["adt"] == a or e["adt"].endswith("::" + a) for a in adts):
-                    out.setdefault("%s.%s" % (e["adt"].rsplit("::", 1)[-1], e["n"]), set()).add(root)
+                    direct.setdefault("%s.%s" % (e["adt"].rsplit("::", 1)[-1], e["n"]), set()).add(pth)
         for bi, si, st in b.stmts():
             if "lhs" in st and st["lhs"]["p"]:
-                # a store through a field path: the innermost listed struct field on the path is what is written
                 note(st["lhs"])
             rv = st.get("rv")
             if rv and rv["k"] in ("ref", "rawptr") and rv.get("mut") and rv["p"]["p"]:
@@ -119,7 +118,26 @@ def field_writer_table(F, adts):
         for c in b.calls:
             if c.dest["p"]:
                 note(c.dest)
-    return {k: sorted(v) for k, v in sorted(out.items())}
+    # reverse reachability over the crate-local call graph (closures belong to their parents)
+    callers = {}
+    for p, qs in F.callgraph.items():
+        for q in qs:
+            callers.setdefault(q, set()).add(p)
+    for p, b in F.bodies.items():
+        if b.kind == "Closure":
+            callers.setdefault(p, set()).add(p.rsplit("::{closure", 1)[0])
+    out = {}
+    for key, ws in direct.items():
+        seen, work = set(ws), list(ws)
+        while work:
+            x = work.pop()
+            for y in callers.get(x, ()):
+                if y not in seen:
+                    seen.add(y)
+                    work.append(y)
+        pubs = sorted({F.canon_of(F.bodies[x]) for x in seen if x in F.bodies and F.bodies[x].vis == "Public" and F.bodies[x].kind != "Closure"})
+        out[key] = pubs
+    return dict(sorted(out.items()))
 
 
 def field_writers(ctx, F, adts, fields=None, R="R-WHO"):
@@ -138,9 +156,9 @@ def field_writers(ctx, F, adts, fields=None, R="R-WHO"):
         got = set(cur.get(key, []))
         new = sorted(got - want)
         n += 1
-        ctx.ob(R, "field-writers|%s" % key, not new, "%s is written by %d reviewed function(s)" % (key, len(got)), "",
-               what="%s is now also assigned or mutably borrowed in %s, which is not one of its reviewed writers (%s): state that other operations rely on "
-                    "(identifier allocation, Length bookkeeping, the previous revision, iteration budgets) can change behind their back" % (key, new, sorted(want)))
+        ctx.ob(R, "field-writers|%s" % key, not new, "%s can be changed through %d reviewed public function(s)" % (key, len(got)), "",
+               what="%s can now also be changed through the public function(s) %s (reviewed: %d others): state that other operations rely on "
+                    "(identifier allocation, Length bookkeeping, the previous revision, iteration budgets) changes behind their back" % (key, new, len(want)))
     ctx.floor(R, "struct fields with a writer table", n, 1)
 
 
